@@ -761,6 +761,13 @@ func genC19(seed uint64, tier Tier) *Case {
 		}
 		c.Faults = append(c.Faults, f)
 		c.Steps = append(c.Steps, Step{Kind: "arm", Group: 1})
+	} else if g.r.Bool(0.7) {
+		// no crash planned: one read of an index file fails while the searches work through the fractions; the
+		// search of that fraction fails (the store may give up and has to be started again), the request must not
+		// be reported done without that fraction
+		armed = true
+		c.Faults = append(c.Faults, &simos.Fault{Group: 1, Op: "read", Action: "eio", PathSuffix: ".index", Nth: g.r.Range(1, 4*nfrac)})
+		c.Steps = append(c.Steps, Step{Kind: "arm", Group: 1})
 	}
 	for _, a := range reqs {
 		c.Steps = append(c.Steps, Step{Kind: "async_start", Async: a})
@@ -932,6 +939,18 @@ func genC14(seed uint64, tier Tier) *Case {
 				op.Docs = append(op.Docs, g.doc(ts))
 			}
 			ops = append(ops, op)
+			if g.r.Bool(0.2) && len(op.Docs) > 1 {
+				// a retry that overlaps only in part: documents the fraction already holds next to new ones, the newest
+				// new one first (the borders of the fraction are recomputed from the survivors of the duplicate filter)
+				g.nextBulk++
+				re := Op{Kind: "bulk", Bulk: g.nextBulk}
+				re.Docs = append(re.Docs, g.doc(g.nowMs+uint64(g.r.Range(4000, 9000))))
+				re.Docs = append(re.Docs, op.Docs[:1+g.r.Intn(len(op.Docs)-1)]...)
+				if g.r.Bool(0.5) {
+					re.Docs = append(re.Docs, g.doc(g.nowMs-uint64(g.r.Intn(3000))))
+				}
+				ops = append(ops, re)
+			}
 		}
 		c.Steps = append(c.Steps, seqStep(ops...))
 		if g.r.Bool(0.5) {
